@@ -6,7 +6,7 @@ each step, a canonical observation string (the harness builds the same string fr
 observation of a step:  `<outcome>#<returned element>#<cur>#<aux>#<A1|A0>`
   (`A1`: `listAccepts op` held in the state before the step, i.e. a plain list accepts the call)
   outcome   `ok` | `E:<exception>` | `plain:<items>`   (derived collection that is a plain list)
-  element   `<value>:<spin 0/1>:<label>=<int>,…`
+  element   `<value>:<spin 0/1>:<label>=<int>,…`     value = `num/den` | `inf` | `-inf`  (extended rationals `EVal`)
   collection `<element>;<element>;…|<best value or N>|<1 if best ∈ items else 0>` -/
 namespace Qv.Drv.C13
 open Lean Qv Qv.Res
@@ -16,6 +16,18 @@ def intOfJson (j : Json) : Except String Int := j.getInt?
 def optInt (j : Json) : Except String (Option Int) :=
   if j.isNull then pure none else do pure (some (← j.getInt?))
 
+/-- a value: `"num/den"`, `"inf"` or `"-inf"` -/
+def evalOfJson (j : Json) : Except String EVal := do
+  match ← j.getStr? with
+  | "inf" => pure .pinf
+  | "-inf" => pure .ninf
+  | s => do pure (.fin (← ratOfString s))
+
+def evalStr : EVal → String
+  | .pinf => "inf"
+  | .ninf => "-inf"
+  | .fin q => ratStr q
+
 def pstateOfJson (j : Json) : Except String PState := do
   (← j.getArr?).toList.mapM (fun t => do
     let k ← t.getArrVal? 0 >>= Json.getNat?
@@ -24,7 +36,7 @@ def pstateOfJson (j : Json) : Except String PState := do
 
 def resultOfJson (j : Json) : Except String Result := do
   let st ← j.getArrVal? 0 >>= pstateOfJson
-  let v ← j.getArrVal? 1 >>= ratOfJson
+  let v ← j.getArrVal? 1 >>= evalOfJson
   let sp ← j.getArrVal? 2 >>= Json.getBool?
   pure ⟨st, v, sp⟩
 
@@ -38,8 +50,8 @@ def sliceOfJson (j : Json) : Except String Slice := do
 `apply_function`, `convert_states` -/
 def resultPred (j : Json) : Except String (Result → Bool) := do
   match ← j.getObjVal? "f" >>= Json.getStr? with
-  | "value_le" => do let c ← j.getObjVal? "c" >>= ratOfJson; pure (fun r => decide (r.value ≤ c))
-  | "value_gt" => do let c ← j.getObjVal? "c" >>= ratOfJson; pure (fun r => decide (c < r.value))
+  | "value_le" => do let c ← j.getObjVal? "c" >>= evalOfJson; pure (fun r => decide (r.value ≤ c))
+  | "value_gt" => do let c ← j.getObjVal? "c" >>= evalOfJson; pure (fun r => decide (c < r.value))
   | "spin" => pure (fun r => r.spin)
   | "nospin" => pure (fun r => !r.spin)
   | "all" => pure (fun _ => true)
@@ -60,9 +72,14 @@ def statePred (j : Json) : Except String (PState → Bool) := do
 def resultFn (j : Json) : Except String (Result → Result) := do
   match ← j.getObjVal? "f" >>= Json.getStr? with
   | "neg" => pure (fun r => ⟨r.state, -r.value, r.spin⟩)
-  | "shift" => do let c ← j.getObjVal? "c" >>= ratOfJson; pure (fun r => ⟨r.state, r.value + c, r.spin⟩)
-  | "setvalue" => do let c ← j.getObjVal? "c" >>= ratOfJson; pure (fun r => ⟨r.state, c, r.spin⟩)
-  | "square" => pure (fun r => ⟨r.state, r.value * r.value, r.spin⟩)
+  | "shift" => do let c ← j.getObjVal? "c" >>= ratOfJson; pure (fun r => ⟨r.state, r.value.addFin c, r.spin⟩)
+  | "setvalue" => do let c ← j.getObjVal? "c" >>= evalOfJson; pure (fun r => ⟨r.state, c, r.spin⟩)
+  | "square" => pure (fun r => ⟨r.state, r.value.square, r.spin⟩)
+  -- `lambda r: AnnealResult(r.state, inf if <state holds k = v> else r.value, r.spin)`: tag states as infeasible
+  | "penalise" => do
+    let k ← j.getObjVal? "k" >>= Json.getNat?
+    let v ← j.getObjVal? "v" >>= Json.getInt?
+    pure (fun r => ⟨r.state, if r.state.contains (k, v) then .pinf else r.value, r.spin⟩)
   | "id" => pure id
   | s => throw s!"bad result function {s}"
 
@@ -122,12 +139,12 @@ def opOfJson (j : Json) : Except String Op := do
 def pstateStr (st : PState) : String := ",".intercalate (st.map (fun p => s!"{p.1}={p.2}"))
 
 def resultStr (r : Result) : String :=
-  s!"{ratStr r.value}:{if r.spin then 1 else 0}:{pstateStr r.state}"
+  s!"{evalStr r.value}:{if r.spin then 1 else 0}:{pstateStr r.state}"
 
 def itemsStr (l : List Result) : String := ";".intercalate (l.map resultStr)
 
 def collStr (c : Coll) : String :=
-  let b := match c.best with | none => "N" | some b => ratStr b.value
+  let b := match c.best with | none => "N" | some b => evalStr b.value
   let mem := match c.best with | none => "0" | some b => if c.items.contains b then "1" else "0"
   s!"{itemsStr c.items}|{b}|{mem}"
 
